@@ -390,7 +390,7 @@ def text_formats(ctx):
                 node=muts[0].node if muts and getattr(muts[0], "node", None) is not None else f.node, function=fq,
                 expected="entries of the description are neither moved, merged nor dropped",
                 found=f"{[repr(m_)[:160] for m_ in muts][:2]}")
-        top = [e for e in o.effects if isinstance(e, App) and e.op.startswith("eff:") and e.op not in ("eff:assume",)]
+        top = [e for e in o.effects if isinstance(e, App) and e.op.startswith("eff:") and e.op not in ("eff:assume", "eff:log")]
         guard = len(top) == 1 and top[0].op == "eff:if" and norm(top[0].args[0]) == App("in", (Const(deps_name), ET)) and not list(top[0].args[2].args)
         R.check("C03-D2d hierarchy expansion", guard, f"{q}: only when the envelope has integrated dependencies", mod=f.module, node=f.node,
                 function=fq, expected="everything guarded by the presence of suit-integrated-dependencies", found="unguarded effects" if not guard else "")
